@@ -25,6 +25,8 @@ ASSUMPTIONS = [
 PAIRS = [["jax-vs-tt", n] for n in ["neo_hooke", "mooney_rivlin", "yeoh", "third_order_deformation", "extended_tube", "van_der_waals",
                                    "miehe_goektepe_lulei", "blatz_ko", "storakers", "morph", "morph_representative_directions",
                                    "total_lagrange(neo_hooke)", "updated_lagrange(neo_hooke)"]]
+# the strain-energy form and the stress form of the same tensortrax model
+PAIRS += [["energy-vs-stress", "morph_representative_directions"]]
 PAIRS += [["hand-vs-ad", n] for n in ["NeoHooke", "NeoHookeCompressible", "OgdenRoxburgh", "Volumetric"]]
 PAIRS += [["linear", n] for n in ["family", "plane-strain", "plane-stress", "orthotropic", "large-strain-at-I"]]
 MODULI = [n for n in gmat.NAMES if "mu0" in gmat.REG[n]] + ["tt:extended_tube(delta=0)", "jax:extended_tube(delta=0)", "tt:van_der_waals", "jax:van_der_waals"]
@@ -32,8 +34,8 @@ MODULI = [n for n in gmat.NAMES if "mu0" in gmat.REG[n]] + ["tt:extended_tube(de
 
 def pair_strategy(ax, tier):
     kind, n = ax
-    if kind == "jax-vs-tt":
-        e = gmat.REG["jax:" + n]
+    if kind in ("jax-vs-tt", "energy-vs-stress"):
+        e = gmat.REG["tt:" + n]
         return st.fixed_dictionaries({"params": e["params"], "F": gmat.st_Fcase(((2, 2),))})
     if kind == "hand-vs-ad":
         return st.fixed_dictionaries({"mu": gmat.fl(0.3, 3), "lmbda": gmat.fl(0.2, 10), "r": gmat.fl(1.5, 5), "m": gmat.fl(0.3, 2), "beta": gmat.fl(0.0, 0.5),
@@ -69,23 +71,24 @@ def run_history(name, params, F, hist, lam, Q=None):
 def pair_check(ax, case, rec):
     fem = import_felupe()
     kind, n = ax
-    if kind == "jax-vs-tt":
-        ej = gmat.REG["jax:" + n]
+    if kind in ("jax-vs-tt", "energy-vs-stress"):
+        name_a, name_b = ("jax:" + n, "tt:" + n) if kind == "jax-vs-tt" else ("tt:hyperelastic." + n, "tt:" + n)
+        ej = gmat.REG[name_a]
         rng = np.random.default_rng(case["F"]["fseed"])
         Qc = gmat.coaxial_Q(case["F"], (2, 2)) if ej["nstate"] else None
         F = gmat.make_F(rng, (2, 2), ej["lam"], sep=True, Q=Qc)
         rec.nontrivial = True
-        Pj, Aj, svj, snj = run_history("jax:" + n, case["params"], F, case["F"]["hist"], ej["lam"], Q=Qc)
-        Pt, At, svt, snt = run_history("tt:" + n, case["params"], F, case["F"]["hist"], ej["lam"], Q=Qc)
+        Pj, Aj, svj, snj = run_history(name_a, case["params"], F, case["F"]["hist"], ej["lam"], Q=Qc)
+        Pt, At, svt, snt = run_history(name_b, case["params"], F, case["F"]["hist"], ej["lam"], Q=Qc)
         sc = float(np.abs(At).max())
-        reg = max(ej["reg"], gmat.REG["tt:" + n]["reg"])
+        reg = max(ej["reg"], gmat.REG[name_b]["reg"])
         tolP = 20 * reg * max(1.0, gmat.reg_scale(n, case["params"]) / sc) if reg else 1e-8
         tolA = 5e-2 if reg else 1e-7
         if n in ("extended_tube", "storakers", "miehe_goektepe_lulei") and not reg:
             tolP, tolA = 1e-6, 1e-5  # tensortrax perturbs coincident eigenvalues by sqrt(eps)
         tag = ""
         if ej["nstate"]:
-            virgin = np.array_equal(svt, gmat.virgin_state("tt:" + n, (2, 2)))
+            virgin = np.array_equal(svt, gmat.virgin_state(name_b, (2, 2)))
             tag = "@virgin" if virgin else "@history-coaxial" if Qc is not None else "@history"
             rec.close("state-before" + tag, relmax(svj, svt, max(1.0, float(np.abs(svt).max()))), max(tolP, 1e-8))
             rec.close("state-after" + tag, relmax(snj, snt, max(1.0, float(np.abs(snt).max()))), max(tolP, 1e-8))
